@@ -82,6 +82,46 @@ def gcTasks (st : St) (sp limit : Nat) (showRegions : Bool) : List Task → Nat 
       gcTasks st sp limit showRegions ts (i + out.scans.length) out.pop
         (s!"{rangeStr t}[{scansStr out.scans}]r{if showRegions then toString out.regions else "*"}" :: acc)
 
+/-! cancellation scenarios: the driver builds the schedule the harness forces on the real runner, lets the MODEL run it,
+    and explores both cases the producer's `select` can take once the context is done -/
+
+def rep {α : Type} (n : Nat) (l : List α) : List α := (List.replicate n l).flatten
+
+/-- everything that can still move, often enough for any run with `t` sub-ranges and `w` workers to finish;
+    `abandonFirst`: the producer prefers `<-ctx.Done()` over the send -/
+def drain (t w : Nat) (abandonFirst : Bool) : List RunEv :=
+  (if abandonFirst then [.abandon] else []) ++
+    rep (2 * (t + w) + 4) [.finish false, .pull, .push, .abandon]
+
+def classOf (tasks : List Task) (st : RunSt) : String :=
+  if !st.done then "not-done" else if !st.resultNil then "err"
+  else if st.complete tasks then "nil-complete" else "nil-gap"
+
+def insertStr (x : String) : List String → List String
+  | [] => [x]
+  | y :: ys => if x == y then y :: ys else if x < y then x :: y :: ys else y :: insertStr x ys
+
+/-- verdict of the property oracle `nil ⇒ whole range handled` over both producer choices -/
+def cancelVerdict (tasks : List Task) (workers : Nat) (pre : List RunEv) : String :=
+  let a := (RunSt.init tasks workers).run (pre ++ drain tasks.length workers true)
+  let b := (RunSt.init tasks workers).run (pre ++ drain tasks.length workers false)
+  if classOf tasks a == "nil-gap" then s!"FAIL success-with-gap {rangesStr a.handled}"
+  else if classOf tasks b == "nil-gap" then s!"FAIL success-with-gap {rangesStr b.handled}"
+  else s!"ok {",".intercalate (insertStr (classOf tasks a) [classOf tasks b])}"
+
+/-- number of ScanLock requests of each sub-range when handled one after the other without cancellation -/
+def scansPerTask (st : St) (sp limit : Nat) : List Task → Nat → List Lock → Option (List Nat)
+  | [], _, _ => some []
+  | t :: ts, i, pop =>
+    match resolveLoop (gcLayouts st) (fun j => gcLayouts st (j + 1)) (gcRetry st) sp t.e limit FUEL i t.s ⟨[], pop, [], 0⟩ with
+    | none => none
+    | some out => (scansPerTask st sp limit ts (i + out.scans.length) out.pop).map (out.scans.length :: ·)
+
+/-- (index of the sub-range whose loop issues the j-th scan, is it the last scan of that loop) -/
+def locateScan : List Nat → Nat → Nat → Option (Nat × Bool)
+  | [], _, _ => none
+  | n :: ns, j, k => if j < n then some (k, j + 1 == n) else locateScan ns (j - n) (k + 1)
+
 def step (st : St) (line : String) : St × String :=
   match words line with
   | ["reset"] => ({}, "ok")
@@ -117,6 +157,48 @@ def step (st : St) (line : String) : St × String :=
           | (_, none) => (st, s!"ok {rangesStr ts}")
           | (handled, some _) => (st, if workers == 1 then s!"err {rangesStr handled}" else "err *")
     | _, _, _, _ => (st, "bad-op")
+  | ["runc", s, e, rpt, workers, mode, i] =>
+    match parseHex s, parseHex e, rpt.toNat?, workers.toNat?, i.toNat? with
+    | some s, some e, some rpt, some workers, some i =>
+      match runOnRange (fun _ => st.base) rpt FUEL s e with
+      | none => (st, "nonterm")
+      | some ts =>
+        let t := ts.length
+        if mode == "inh" then
+          if i ≥ t || !(t - i ≤ workers || t ≥ i + workers + 2) then (st, "skip")
+          else
+            -- i sub-ranges handled; the next min(workers, t-i) are in handlers; the channel is filled; cancel;
+            -- the held handlers return nil
+            let pre := rep i [.push, .pull, .finish false] ++ rep (min workers (t - i)) [.push, .pull]
+              ++ rep workers [.push] ++ [.cancel]
+            (st, cancelVerdict ts workers pre)
+        else if mode == "before" then (st, cancelVerdict ts workers [.cancel])
+        else if mode == "between" then
+          -- the producer is slower than the workers; cancel during the load of sub-range i+1
+          let pre := rep (min (i + 1) t) [.push, .pull, .finish false] ++ (if i + 1 < t then [.cancel] else [])
+          (st, cancelVerdict ts workers pre)
+        else (st, "bad-op")
+    | _, _, _, _, _ => (st, "bad-op")
+  | ["gcc", sp, j] =>
+    match sp.toNat?, j.toNat? with
+    | some sp, some j =>
+      let limit := RangeTaskGen.resolvedCacheSize / 2
+      match runOnRange (fun _ => st.base) RangeTaskGen.defaultRegionsPerTask FUEL [] [] with
+      | none => (st, "nonterm")
+      | some tasks =>
+        match scansPerTask st sp limit tasks 0 st.pop with
+        | none => (st, "nonterm")
+        | some ns =>
+          match locateScan ns j 0 with
+          | none => (st, "skip")
+          | some (cur, lastScan) =>
+            if cur + 3 > tasks.length then (st, "skip")
+            else
+              -- one worker: sub-ranges before `cur` handled, `cur` in its handler, `cur+1` queued, the producer blocked;
+              -- the handler notices the cancellation at the top of its next iteration, unless this was its last scan
+              let pre := rep cur [.push, .pull, .finish false] ++ [.push, .pull, .push, .push, .cancel, .finish (!lastScan)]
+              (st, cancelVerdict tasks 1 pre)
+    | _, _ => (st, "bad-op")
   | ["del", s, e, _workers] =>
     match parseHex s, parseHex e with
     | some s, some e =>
